@@ -255,6 +255,10 @@ def defaults(model):
 
 def cubic_eps(model):
     """the band literal of `loss._dep_cubic_root` (from the table, not copied into the harness)"""
+    import os
+
+    if os.environ.get("VERIF_C02_CUBIC_EPS") is not None:  # development only: evaluate a proposed patch of the band test
+        return float(os.environ["VERIF_C02_CUBIC_EPS"])
     return float(defaults(model)[("_dep_cubic_root", "band LtE")])
 
 
